@@ -1095,6 +1095,7 @@ func newNeighborFromAPIStruct(a *api.Peer) (*oc.Neighbor, error) {
 				pconf.Transport.Config.LocalAddress = addr
 			}
 		}
+		pconf.Transport.Config.MtuDiscovery = a.Transport.MtuDiscovery
 		pconf.Transport.Config.PassiveMode = a.Transport.PassiveMode
 		pconf.Transport.Config.RemotePort = uint16(a.Transport.RemotePort)
 		pconf.Transport.Config.LocalPort = uint16(a.Transport.LocalPort)
